@@ -8,7 +8,7 @@
 From Coq Require Import List Bool NArith ZArith String.
 From Verif.Base Require Import Outcome.
 From Verif.Model Require Import IE KMap Pq Corr Expiry ExpirySpec.
-From Verif.Proofs Require Import KMap_lemmas Expiry_lemmas.
+From Verif.Proofs Require Import KMap_lemmas Expiry_lemmas Progress_lemmas.
 Import ListNotations.
 Local Open Scope Z_scope.
 
@@ -67,6 +67,14 @@ Print Assumptions C06_record_arms.
 Theorem C06_scan_terminates : forall P now fails picks s r, wf_params P = true -> Inv s ->
   scan Fixed P now fails picks s = Some r -> (List.length picks <= List.length (queue s))%nat.
 Proof. exact scan_picks_bounded. Qed.
+
+(* the abstract queue never blocks: from every state satisfying (I1) some pick sequence (take an
+   item attaining the least deadline each time) is accepted, so the quantification over
+   tie-breakings is over a non-empty set *)
+Theorem C06_scan_never_blocks : forall P now fails s, wf_params P = true -> Inv s ->
+  exists picks r, scan Fixed P now fails picks s = Some r.
+Proof. exact scan_never_blocks. Qed.
+Print Assumptions C06_scan_never_blocks.
 
 (* (I5) the advertised expiry is MinExpiryTime + (earliest deadline - now) when non-negative,
    where the earliest deadline is a lower bound of, and attained by, the queued items *)
